@@ -162,6 +162,22 @@ func stopServer() {
 	srv, srvDataDir = nil, ""
 }
 
+// waitLeader returns the running cluster once this member is leader (nil after d).
+func waitLeader(d time.Duration) *cluster.RaftCluster {
+	deadline := time.Now().Add(d)
+	for {
+		if srv.GetMember().IsLeader() {
+			if rc := srv.GetRaftCluster(); rc != nil {
+				return rc
+			}
+		}
+		if time.Now().After(deadline) {
+			return nil
+		}
+		time.Sleep(50 * time.Millisecond)
+	}
+}
+
 func hdr() *pdpb.RequestHeader { return &pdpb.RequestHeader{ClusterId: srv.ClusterID()} }
 
 func rpcPut(s *metapb.Store) (*pdpb.PutStoreResponse, error) {
@@ -226,10 +242,18 @@ func runGrpc(c GrpcCase) (info vkit.Info, err error) {
 		fmt.Println("C14 grpc: server fixture not available:", e)
 		return inconclusive("no-server")
 	}
-	rc := srv.GetRaftCluster()
-	if rc == nil || !srv.GetMember().IsLeader() {
+	rc := waitLeader(15 * time.Second)
+	if rc == nil {
 		return inconclusive("not-leader")
 	}
+	// a verdict is only meaningful when the member was leader with the same running cluster
+	// throughout the case (on a very busy machine the 1-member server can lose its lease;
+	// writes of a deposed leader fail and the cluster object is replaced)
+	defer func() {
+		if err != nil && (!srv.GetMember().IsLeader() || srv.GetRaftCluster() != rc) {
+			info, err = vkit.Info{Inconclusive: true, Classes: []string{"inconclusive:leader-changed"}}, nil
+		}
+	}()
 	var ids []uint64
 	metas := map[uint64]*metapb.Store{}
 	for i := 0; i < c.Stores; i++ {
